@@ -912,6 +912,7 @@ class C04(PropertyCheck):
         "QipVerif.C04.import_faithful_partial",
         "QipVerif.C04.import_den_partial",
         "QipVerif.C04.import_unitary_partial",
+        "QipVerif.C04.import_custom_partial",
         "QipVerif.C04.cond_onebit",
         "QipVerif.C04.import_rejects_undeclared_gate",
         "QipVerif.C04.import_rejects_bad_argument",
